@@ -21,7 +21,21 @@ def tall_tables(cfg):
 
     mod = importlib.import_module(CORPUS)
     tps = [t for t in mod.templates(cfg) if "nonlinear" not in t.tags and not t.name[4:].startswith(("c18.", "c17.string"))]
-    tps = rotated(tps, 40 if cfg.tier == "quick" else 200, cfg.seed + 3)
+    # only templates without any DEF condition (no division, rounding, unmarked order keys, ...):
+    # random tall data cannot be kept inside DEF otherwise
+    from .. import ref as R
+    from ..e1 import make_inputs
+
+    def has_def(tp):
+        try:
+            syms = make_inputs(tp, cfg)
+            w = R.World()
+            tp.prog(R.RefAPI, *[R.RTable.source(w, name, syms[name]) for name, _ in tp.sources])
+            return bool(w.defs)
+        except Exception:  # noqa: BLE001
+            return True
+
+    tps = [t for t in rotated(tps, 120 if cfg.tier == "quick" else 500, cfg.seed + 3) if not has_def(t)][: 40 if cfg.tier == "quick" else 200]
     rng = random.Random(cfg.seed * 17 + 1)
     viol, n, samples = [], 0, []
     for tp in tps:
